@@ -10,7 +10,7 @@ META = {
     'bounds': {
         'quick': '5 properties (unit-taking and unitless) x 1 value x 9 number shapes x 8 units, with/without !; padding and line-height with '
                  '<=2 values; intUnit/floatUnit any 2 lowercase letters (1 letter in the per-syntax jobs); 5 syntaxes; +-joined pair; every channel value 0..255; symbolic r,g,b in 0..255 x alpha {0,.5,1} x '
-                 'shortHex; 14 colour forms x shortHex',
+                 'shortHex; 20 colour forms x shortHex',
         'thorough': 'all 5 properties with <=2 values, padding and line-height with <=3 values',
     },
     'outside_claim': ['functions/gradients, keywords (C06), stylesheet.json', '4- and 5-digit colours (undocumented)',
@@ -225,7 +225,8 @@ COLORS = [('#f', '#fff', '#ffffff'), ('#fc', '#fcfcfc', '#fcfcfc'), ('#fc0', '#f
           ('#e7bc0b', '#e7bc0b', '#e7bc0b'), ('#0b', '#0b0b0b', '#0b0b0b'), ('#0', '#000', '#000000'), ('#t', 'transparent', 'transparent'),
           ('#f.5', 'rgba(255, 255, 255, 0.5)', 'rgba(255, 255, 255, 0.5)'), ('#fc0.25', 'rgba(255, 204, 0, 0.25)', 'rgba(255, 204, 0, 0.25)'),
           ('#ffcc01', '#ffcc01', '#ffcc01'), ('#1122f0', '#1122f0', '#1122f0'), ('#0000fe', '#0000fe', '#0000fe'), ('#a1', '#a1a1a1', '#a1a1a1'),
-          ('#F', '#fff', '#ffffff'), ('#010203', '#010203', '#010203')]
+          ('#F', '#fff', '#ffffff'), ('#010203', '#010203', '#010203'), ('#0.5', 'rgba(0, 0, 0, 0.5)', 'rgba(0, 0, 0, 0.5)'),
+          ('#FC0', '#fc0', '#ffcc00'), ('#e7BC0b', '#e7bc0b', '#e7bc0b'), ('#000.3', 'rgba(0, 0, 0, 0.3)', 'rgba(0, 0, 0, 0.3)')]
 
 
 def mk_colors():
@@ -289,6 +290,6 @@ def jobs(tier):
     out.append(Job('C05-a/pair/css', 'vf.props.c05:mk_pair', dict(syntax='css'), shape='H', bound='25 pairs', budget=900, weight=100))
     out.append(Job('C05-b/channel-printers', 'vf.props.c05:mk_channel', {}, shape='U', bound='n in 0..255', budget=900, weight=300))
     out.append(Job('C05-c/form-selection', 'vf.props.c05:mk_selection', {}, shape='U', bound='r,g,b in 0..255', budget=900, weight=300))
-    out.append(Job('C05-d/colours', 'vf.props.c05:mk_colors', {}, shape='H', bound='16 colour forms', budget=900, weight=200))
+    out.append(Job('C05-d/colours', 'vf.props.c05:mk_colors', {}, shape='H', bound='20 colour forms', budget=900, weight=200))
     out.append(Job('C05-d/colour-then-number', 'vf.props.c05:mk_color_then_number', {}, shape='H', bound='8 colour forms', budget=900, weight=100))
     return out
